@@ -209,6 +209,11 @@ impl Vm {
           return;
         }
 
+        // a fiber suspended on an import continues only after the module has run
+        if !fiber.can_resume() {
+          return;
+        }
+
         fiber.unblock();
         self.fiber_queue.push_back(fiber)
       },
